@@ -335,17 +335,13 @@ func (s *State) load(addr *Term, ver string) *Term {
 			return e.val
 		}
 		sort.Slice(subs, func(i, j int) bool { return subs[i].addr.Aux < subs[j].addr.Aux })
-		lit := &Term{Op: "lit", Aux: "", Args: nil}
-		base := e.val
-		if !(base.Op == "const" && strings.HasPrefix(base.Aux, "zero")) {
-			lit.Aux = "over:" + base.Key()
-		}
+		var kvs []*Term
 		for _, se := range subs {
 			// nested literal fields
 			v := s.load(se.addr, ver)
-			lit.Args = append(lit.Args, &Term{Op: "kv", Aux: se.addr.Aux, Args: []*Term{v}})
+			kvs = append(kvs, &Term{Op: "kv", Aux: se.addr.Aux, Args: []*Term{v}})
 		}
-		return lit
+		return overlay(e.val, kvs)
 	}
 	// sub-entries without a whole entry
 	var subs []*memEntry
@@ -365,11 +361,11 @@ func (s *State) load(addr *Term, ver string) *Term {
 	}
 	if len(subs) > 0 {
 		sort.Slice(subs, func(i, j int) bool { return subs[i].addr.Aux < subs[j].addr.Aux })
-		lit := &Term{Op: "lit", Aux: "over:" + (&Term{Op: "load", Aux: "0", Args: []*Term{addr}}).Key()}
+		var kvs []*Term
 		for _, se := range subs {
-			lit.Args = append(lit.Args, &Term{Op: "kv", Aux: se.addr.Aux, Args: []*Term{s.load(se.addr, ver)}})
+			kvs = append(kvs, &Term{Op: "kv", Aux: se.addr.Aux, Args: []*Term{s.load(se.addr, ver)}})
 		}
-		return lit
+		return overlay(&Term{Op: "load", Aux: "0", Args: []*Term{addr}}, kvs)
 	}
 	return &Term{Op: "load", Aux: "0", Args: []*Term{addr}}
 }
@@ -393,15 +389,56 @@ func (s *State) loadParent(p *Term) *Term {
 	return nil
 }
 
+// overlay builds the struct value "base with the given fields replaced".
+// A literal base is merged; any other base is kept as a leading "base" argument.
+func overlay(base *Term, kvs []*Term) *Term {
+	if base == nil || base.Op == "const" && strings.HasPrefix(base.Aux, "zero") {
+		return &Term{Op: "lit", Args: kvs}
+	}
+	if base.Op == "lit" {
+		merged := map[string]*Term{}
+		var baseArg *Term
+		for _, a := range base.Args {
+			if a.Op == "base" {
+				baseArg = a
+			} else {
+				merged[a.Aux] = a
+			}
+		}
+		for _, kv := range kvs {
+			merged[kv.Aux] = kv
+		}
+		names := make([]string, 0, len(merged))
+		for n := range merged {
+			names = append(names, n)
+		}
+		sort.Strings(names)
+		out := &Term{Op: "lit"}
+		if baseArg != nil {
+			out.Args = append(out.Args, baseArg)
+		}
+		for _, n := range names {
+			out.Args = append(out.Args, merged[n])
+		}
+		return out
+	}
+	return &Term{Op: "lit", Args: append([]*Term{{Op: "base", Args: []*Term{base}}}, kvs...)}
+}
+
 func fieldOf(v *Term, name string) *Term {
 	if v.Op == "lit" {
+		var baseArg *Term
 		for _, kv := range v.Args {
+			if kv.Op == "base" {
+				baseArg = kv
+				continue
+			}
 			if kv.Aux == name {
 				return kv.Args[0]
 			}
 		}
-		if strings.HasPrefix(v.Aux, "over:") {
-			return &Term{Op: "field", Aux: name, Args: []*Term{{Op: "sym", Aux: v.Aux}}}
+		if baseArg != nil {
+			return fieldOf(baseArg.Args[0], name)
 		}
 		return &Term{Op: "const", Aux: "zero:." + name}
 	}
@@ -409,6 +446,36 @@ func fieldOf(v *Term, name string) *Term {
 		return &Term{Op: "const", Aux: "zero:." + name}
 	}
 	return &Term{Op: "field", Aux: name, Args: []*Term{v}}
+}
+
+// FieldOf is the exported field projection used by rule packs.
+func FieldOf(v *Term, name string) *Term { return fieldOf(v, name) }
+
+// LitFields lists the explicit fields of a literal term (without its base).
+func LitFields(v *Term) []*Term {
+	var out []*Term
+	if v == nil || v.Op != "lit" {
+		return nil
+	}
+	for _, a := range v.Args {
+		if a.Op == "kv" {
+			out = append(out, a)
+		}
+	}
+	return out
+}
+
+// LitBase returns the base value a literal overlays (nil when it is a plain literal).
+func LitBase(v *Term) *Term {
+	if v == nil || v.Op != "lit" {
+		return nil
+	}
+	for _, a := range v.Args {
+		if a.Op == "base" {
+			return a.Args[0]
+		}
+	}
+	return nil
 }
 
 // ---------------------------------------------------------------------------
@@ -465,6 +532,9 @@ func (p *Path) Events(kinds ...Kind) []*Step {
 
 type Options struct {
 	MaxInline int
+	// SelfNesting: how many frames of one function may be on the inline stack at once (0 = 1: a function is
+	// never inlined into itself; closures of one function value-nested in each other need more)
+	SelfNesting int
 	// LoopInline: also inline callees that contain loops (their loop heads become cut points); off by default.
 	// Directly recursive callees are never inlined together with their loops.
 	LoopInline bool
@@ -1100,10 +1170,14 @@ func (ex *explorer) canInlineAt(st *State, fn *ssa.Function, site string) bool {
 	if len(st.frames) > ex.opt.MaxInline {
 		return false
 	}
+	nest := 0
 	for _, fr := range st.frames {
 		if fr.fn == fn {
-			return false
+			nest++
 		}
+	}
+	if nest > ex.opt.SelfNesting {
+		return false
 	}
 	if ex.opt.Inline != nil && !ex.opt.Inline(fn) {
 		return false
